@@ -207,7 +207,7 @@ register(
     thorough=1000000,
     level="exploration",
     title="Mermaid export declares exactly the admitted nodes and only edges between them",
-    rule=EXPORT_RULE + " to_file is exercised through an in-memory replacement of codecs.open.",
+    rule=EXPORT_RULE + " to_file writes a real scratch file that is read back and removed.",
     assumptions=["nodes stay alive for the whole run (identifiers are keyed by id())", "seeded sampling: a clean batch is evidence, not proof"],
-    components={"real": REAL, "stub": "codecs.open replaced by an in-memory file for to_file (the only I/O seam)", "harness": "Node subclass, filter/stop/name/node/edge callables"},
+    components={"real": REAL, "stub": "none (to_file writes a real temporary file)", "harness": "Node subclass, filter/stop/name/node/edge callables"},
 )
